@@ -1,7 +1,27 @@
-From Coq Require Import ZArith List Lia Bool.
-From PV Require Import C15.Model C15.Spec C15.Proofs.
+(* C15/Props.v -- the property theorems, and nothing else. *)
+From Coq Require Import ZArith List Lia Bool QArith.
+From PV Require Import Base.NpList Base.NpSearch C15.Model C15.Spec C15.Proofs C15.Proofs2 C15.Proofs3.
 Import ListNotations.
 Open Scope Z_scope.
-Theorem C15_tmp : ccg_steps [0;1] 1 1 <> None.
-Proof. exact tmp_example. Qed.
-Print Assumptions C15_tmp.
+
+(* The shift loop of correlograms(), for every non-decreasing spike train, binsize >= 1 and half
+   window W >= 0: fuel n is enough (the while loop stops after at most n-1 shifts), and the increments
+   it performs, in the order it performs them, are exactly, shift after shift, the spikes a whose
+   partner a+shift lies within the half window -- the shrinking mask never hides such a spike and the
+   early stop never skips a later shift that would still contribute. *)
+Theorem C15_loop : forall (t : list Z) (bs W : Z), sortedZ t -> 1 <= bs -> 0 <= W ->
+  exists steps, ccg_steps t bs W = Some steps /\
+                concat (map step_events steps) = flat_map (events_at t bs W) (seq 1 (length t - 1)).
+Proof. exact loop_events_sorted. Qed.
+Print Assumptions C15_loop.
+
+(* (a, b, d) is incremented iff a is before b in the array, d is the binned lag and d <= W *)
+Theorem C15_mem : forall (t : list Z) (bs W : Z) (a b : nat) (d : Z),
+  In (mkev a b d) (all_events t bs W) <-> (a < b < length t)%nat /\ d = D t bs a b /\ d <= W.
+Proof. exact events_mem. Qed.
+Print Assumptions C15_mem.
+
+(* no pair is counted twice *)
+Theorem C15_nodup : forall (t : list Z) (bs W : Z), NoDup (all_events t bs W).
+Proof. exact NoDup_all_events'. Qed.
+Print Assumptions C15_nodup.
